@@ -237,7 +237,7 @@ def calc_lambda_nikuradse_incomp_numba(m, d, k, eta, area):
     m_abs = np.abs(m)
     for i in range(m.shape[0]):
         re[i] = np.divide(m_abs[i] * d[i], eta[i] * area[i])
-        if (abs(re[i]) > 1.e-8):
+        if not (abs(re[i]) <= 1.e-8):  # like ~np.isclose(re, 0): NaN propagates
             lambda_laminar[i] = 64 / re[i]
         lambda_nikuradse[i] = np.power(-2 * np.log10(k[i] / (3.71 * d[i])), -2)
     return re, lambda_laminar, lambda_nikuradse
@@ -251,7 +251,7 @@ def calc_lambda_nikuradse_comp_numba(m, d, k, eta, area):
     for i, mi in enumerate(m):
         m_abs = np.abs(mi)
         re[i] = np.divide(m_abs * d[i], eta[i] * area[i])
-        if (abs(re[i]) > 1.e-8):
+        if not (abs(re[i]) <= 1.e-8):  # like ~np.isclose(re, 0): NaN propagates
             lambda_laminar[i] = np.divide(64, re[i])
         lambda_nikuradse[i] = np.divide(1, (2 * np.log10(np.divide(d[i], k[i])) + 1.14) ** 2)
     return re, lambda_laminar, lambda_nikuradse
